@@ -1,3 +1,4 @@
+import AquaVerif.Proofs.CropFull
 import AquaVerif.Proofs.Clock
 import AquaVerif.Proofs.ClockCalendar
 import AquaVerif.Proofs.Infiltration
@@ -210,6 +211,32 @@ theorem co2_factor_defined (F : Fn α) (conc ref bsted bface fsink wp : α) :
       (fco2Reset F conc ref bsted bface fsink wp = none ↔ (550 < conc ∧ conc ≤ ref)) :=
   ⟨fco2Init_isSome F conc ref bsted bface fsink wp,
    fco2Reset_eq_none_iff F conc ref bsted bface fsink wp⟩
+
+
+/-! ### the crop catalogue (generated from the sources on every run) -/
+
+/-- The option switches of every catalogue crop are ones the code handles: GDD method 1–3, both
+pollination-stress flags 0/1, TrColdStress 0/1 (KsCold bound), calendar type 1/2. -/
+theorem catalogue_option_switches_defined (F : Fn α) (K : CropDerived α) :
+    ∀ c ∈ Aqua.Generated.cropFullTable, ∀ tmax tmin gdd : α,
+    (growingDegreeDay (c.cropX K).gddMethod (c.cropX K).tupp (c.cropX K).tbase tmax tmin).isSome ∧
+    (temperatureStress F (c.hikCrop (α := α)).polHeatStress (c.hikCrop (α := α)).polColdStress
+      (c.hikCrop (α := α)).tmaxUp (c.hikCrop (α := α)).tmaxLo (c.hikCrop (α := α)).tminUp
+      (c.hikCrop (α := α)).tminLo (c.hikCrop (α := α)).fshapeB tmax tmin).isSome ∧
+    (trKsCold F (c.trCrop K).trColdStress (c.trCrop K).gddUp (c.trCrop K).gddLo gdd).isSome ∧
+    (c.calendarType = 1 ∨ c.calendarType = 2) :=
+  catalogue_switches_defined K F
+
+theorem catalogue_growth_stage_defined : ∀ c ∈ Aqua.Generated.cropFullTable,
+    ∀ (dap dc g dg c10 mx sen : α) (gs : Bool) (old : Nat),
+    (growthStage c.calendarType dap dc g dg c10 mx sen gs old).isSome = true :=
+  fun c hc => growthStage_defined (catalogue_ok c hc)
+
+/-- `FreshYield = DryYield / (YldWC / 100)` divides by zero exactly for these four crops
+(known finding `freshyield-yldwc-unset`). -/
+theorem catalogue_fresh_yield_divides_by_zero_iff : ∀ c ∈ Aqua.Generated.cropFullTable,
+    (c.yldWC = 0 ↔ c.name ∈ ["PotatoLocalGDD", "localpaddy", "MaizeChampionGDD", "Cassava"]) :=
+  catalogue_yldWC_zero_iff
 
 end field
 end Aqua.C16
